@@ -87,7 +87,7 @@ func (g *genCtx) structReaderArms(ir *FuncIR) (arms []*jsonArm, sw *SwitchN, loo
 				}
 				nm := m.Fn.Name()
 				switch {
-				case nm == "Json2ReadBool" && len(m.Args) == 2 && strings.HasPrefix(m.Args[1], "L") && strings.Contains(m.Args[1], "trueType"):
+				case nm == "Json2ReadBool" && len(m.Args) == 2 && strings.HasPrefix(m.Args[1], "L"): // a bool read into a local, not into a field: a true-typed (bit) field
 					a.TrueVal = m.Args[1]
 				case strings.HasPrefix(nm, "Json2Read") && len(m.Args) == 2 && strings.HasPrefix(m.Args[1], "item."):
 					a.Field = m.Args[1]
